@@ -396,6 +396,34 @@ async fn drive(net: NetRef, run: RunDesc, port: u16) -> Value {
                 }
             }
             Action::Hold | Action::Release => {}
+            Action::AcceptOutage(ms) => {
+                let manual = net.lock().unwrap().manual_accept;
+                if manual {
+                    {
+                        let mut n = net.lock().unwrap();
+                        n.accept_outage = true;
+                        n.ev(format!("accept-outage {}ms", ms));
+                        let w = n.accept_waker.take();
+                        drop(n);
+                        wake(w);
+                    }
+                    // time passes; the server keeps trying in whatever rhythm it has
+                    let mut left = *ms;
+                    while left > 0 {
+                        settle(&net, false, &mut stats).await;
+                        let step = left.min(100);
+                        tokio::time::advance(Duration::from_millis(step)).await;
+                        left -= step;
+                    }
+                    {
+                        let mut n = net.lock().unwrap();
+                        n.accept_outage = false;
+                        n.ev("accept-outage over".to_string());
+                    }
+                    bump("fault_accept_outage", 1, &mut stats);
+                    bump("simulated_ms", *ms, &mut stats);
+                }
+            }
             Action::AcceptError(e) => {
                 let mut n = net.lock().unwrap();
                 if n.manual_accept {
